@@ -184,7 +184,7 @@ const FIXED_LISTS: &[&[(i64, f64, f64)]] = &[
 fn decoded_count(tier: Tier) -> u64 {
     match tier {
         Tier::Quick => 30_000,
-        Tier::Thorough => 600_000,
+        Tier::Thorough => 1_500_000,
     }
 }
 
@@ -323,7 +323,7 @@ impl Scenario for C18 {
         enum_count(maxlen(tier))
             + match tier {
                 Tier::Quick => 120_000,
-                Tier::Thorough => 2_000_000,
+                Tier::Thorough => 5_000_000,
             }
             + decoded_count(tier)
     }
